@@ -519,6 +519,18 @@ fn c10(a: &Args) -> Report {
         s.checks = Checks { latest: true, filters: true, ..Default::default() };
         specs.push(s);
     }
+    // blobs written under different filter configurations in one directory: restarts that change
+    // the number of hash functions (1, 2, 3) while the bit count stays the same
+    {
+        let mixed = vec![Op::w(0, 1), Op::w(2, 1), Op::w(3, 1), Op::Rot, Op::RstOtherHashers, Op::Offload { level: 1 }, Op::d(1, 2)];
+        let mut s = SeqSpec::new("C10/storage/group2/mixed-hasher-counts", mixed, if thorough { 6 } else { 5 });
+        s.prefix = vec![Op::w(1, 1), Op::Rot];
+        s.wcfg.group_size = 2;
+        s.wcfg.bloom = BloomCfg::Bits(64);
+        s.keys = vec![0, 1, 2, 3, crate::world::ABSENT_KEY];
+        s.checks = Checks { latest: true, filters: true, ..Default::default() };
+        specs.push(s);
+    }
     let results = run_specs(&specs, a, &no_known);
     let mut rep = seq_report("C10", a, "model_checking", results, SEQ_RULE);
     // unit part: exhaustive over small filter domains
@@ -644,7 +656,29 @@ fn c15(a: &Args) -> Report {
         }
     }
     let results = run_specs(&specs, a, &no_known);
-    seq_report("C15", a, "model_checking", results, SEQ_RULE)
+    let mut rep = seq_report("C15", a, "model_checking", results, SEQ_RULE);
+    // concurrent histories: several operations that need an active blob queue behind a close (or a
+    // rotation); at quiescence the counters must describe the blob files that exist
+    let mut sspecs = Vec::new();
+    for mode in [IoMode::Inplace, IoMode::Background] {
+        for (cname, clients) in [
+            ("TryClose|W|W", vec![vec![COp::M(Op::TryClose)], vec![COp::w(0, 10)], vec![COp::w(1, 11)]]),
+            ("TryClose|W|D", vec![vec![COp::M(Op::TryClose)], vec![COp::w(0, 10)], vec![COp::D { k: 1, ts: 11 }]]),
+            ("TryClose|W|TryCreate", vec![vec![COp::M(Op::TryClose)], vec![COp::w(0, 10)], vec![COp::M(Op::TryCreate)]]),
+            ("CloseBg|W|W", vec![vec![COp::M(Op::CloseBg)], vec![COp::w(0, 10)], vec![COp::w(1, 11)]]),
+            ("TryClose;TryRestore|W", vec![vec![COp::M(Op::TryClose), COp::M(Op::TryRestore)], vec![COp::w(0, 10)]]),
+        ] {
+            let mut s = SchedSpec::new(&format!("C15/sched/{cname}/{mode:?}"), mode, vec![Op::w(0, 1)], clients);
+            s.bound = if thorough { 3 } else { 2 };
+            s.max_execs = if thorough { 40_000 } else { 3_000 };
+            s.followup = vec![COp::w(1, 20), COp::M(Op::Rot), COp::w(0, 21)];
+            sspecs.push(s);
+        }
+    }
+    let sres = run_sched_specs(&sspecs, a.threads);
+    let srep = sched_report("C15", a, sres, SCHED_RULE, &|_| None);
+    merge_reports(&mut rep, srep);
+    rep
 }
 
 fn c03(a: &Args) -> Report {
@@ -958,6 +992,22 @@ fn c08_instances(thorough: bool) -> Vec<SchedSpec> {
                 stamp_ts(&mut clients);
                 specs.push(SchedSpec::new(&name, mode, prefix.clone(), clients));
             }
+        }
+    }
+    // background sync in play (tiny dirty-byte limit): the fsync task holds the shared storage lock
+    // while a close / rotation asks for it exclusively
+    for mode in [IoMode::Inplace, IoMode::Background] {
+        for (cname, clients, max_data) in [
+            ("W;W|TryClose", vec![vec![COp::w(0, 10), COp::w(0, 11)], vec![COp::M(Op::TryClose)]], 1_000_000u64),
+            ("W;W|Rot", vec![vec![COp::w(0, 10), COp::w(0, 11)], vec![COp::M(Op::Rot)]], 1_000_000),
+            ("W;W|W", vec![vec![COp::w(0, 10), COp::w(0, 11)], vec![COp::w(1, 12)]], 2),
+        ] {
+            let mut clients = clients;
+            stamp_ts(&mut clients);
+            let mut s = SchedSpec::new(&format!("C08/life/syncing/{mode:?}/{cname}"), mode, vec![Op::w(1, 1)], clients);
+            s.wcfg.max_dirty = Some(1);
+            s.wcfg.max_data_in_blob = max_data;
+            specs.push(s);
         }
     }
     // duplicates disallowed: concurrent identical writes
